@@ -13,6 +13,9 @@ struct StreamOverrun { size_t requests; };
 struct StreamReq { std::vector<uint8_t> bytes; bool scripted; };
 
 struct Stream {
+    // which memory the library hands to the random source: requests whose buffer lies inside the caller's own output object are counted (a wrapper that
+    // samples into a temporary and copies behaves differently towards a source that looks at its buffer or its address)
+    const uint8_t* watch_lo = nullptr; const uint8_t* watch_hi = nullptr; uint64_t watch_hits = 0;
     Rng rng;
     std::deque<std::vector<uint8_t>> script[4];   // by size class: 0:1 byte, 1:8, 2:32, 3:48
     std::vector<StreamReq> reqs;                  // requests of the current library call
